@@ -58,11 +58,11 @@ Restore(d) == IF Rollback = "snapshot" THEN pre.doc ELSE d
 Finish(r) == pc' = "done" /\ result' = r
 
 Init ==
-  /\ \/ /\ op \in [name : {"generate"}, scope : {"vm"} \cup Rels]
+  /\ \/ /\ op \in [name : {"generate"}, scope : {"vm"} \cup Rels, form : {"exact"}]
         /\ faults \in SUBSET GenCalls
         /\ doc \in Docs
         /\ keys = (IF doc.t = "absent" THEN {} ELSE {"kT"}) /\ kids = (IF doc.t = "absent" THEN {} ELSE {"dT"})
-     \/ /\ op \in [name : {"purge"}, scope : {"none"}]
+     \/ /\ op \in [name : {"purge"}, scope : {"none"}, form : {"exact", "query"}]
         /\ faults \in SUBSET PurgeCalls
         /\ doc \in Docs
         /\ keys = (IF doc.t = "absent" THEN {} ELSE {"kT"}) /\ kids = (IF doc.t = "absent" THEN {} ELSE {"dT"})
@@ -107,8 +107,10 @@ G_Undo ==        \* try_undo_key_generation: delete the generated key
 
 P_Remove ==      \* remove_method_and_scope
   /\ pc = "p_remove"
-  /\ IF doc.t = "absent"
-     THEN /\ doc' = Restore(Removed(doc))       \* MethodNotFound; dangling references were already stripped
+  \* form = "query": the caller's id carries a URL query ("did:..?versionId=1#frag"). Methods are removed by FULL DID URL
+  \* equality (resolution alone would match on DID + fragment), so such an id names no method of the document.
+  /\ IF doc.t = "absent" \/ op.form = "query"
+     THEN /\ doc' = (IF op.form = "query" THEN doc ELSE Restore(Removed(doc)))   \* MethodNotFound; dangling references were already stripped
           /\ Finish("err") /\ UNCHANGED tmp
      ELSE tmp' = ScopeOf(doc) /\ doc' = Removed(doc) /\ pc' = "p_get_key_id" /\ UNCHANGED result
   /\ UNCHANGED <<op, faults, pre, keys, kids, calls, undoFailed>>
@@ -159,7 +161,7 @@ Unchanged == doc = pre.doc /\ keys = pre.keys /\ kids = pre.kids
 
 \* completed: document, key store and key-id store updated together
 GenerateEffect == /\ doc = Inserted(pre.doc, op.scope) /\ keys = pre.keys \cup {"kN"} /\ kids = pre.kids \cup {"dN"}
-PurgeEffect    == /\ doc = Removed(pre.doc) /\ keys = pre.keys \ {"kT"} /\ kids = pre.kids \ {"dT"}
+PurgeEffect    == /\ op.form = "exact" /\ doc = Removed(pre.doc) /\ keys = pre.keys \ {"kT"} /\ kids = pre.kids \ {"dT"}
 
 AllOrNothing ==
   Done => /\ result = "ok"  => (IF op.name = "generate" THEN GenerateEffect ELSE PurgeEffect)
